@@ -53,8 +53,8 @@ Step ==
   /\ v_pos <= Len(Rec)
   /\ LET e == Rec[v_pos] IN
      \/ e.ev = "meta" /\ UNCHANGED <<v_rows, v_tabs>>
-     \/ e.ev = "tabs" /\ TabsOk(e) /\ v_tabs' = TRUE /\ UNCHANGED v_rows
-     \/ e.ev = "row" /\ RowOk(e) /\ v_rows' = v_rows \cup {e.a} /\ UNCHANGED v_tabs
+     \/ e.ev = "tabs" /\ TabsOk(e) = TRUE /\ v_tabs' = TRUE /\ UNCHANGED v_rows
+     \/ e.ev = "row" /\ RowOk(e) = TRUE /\ v_rows' = v_rows \cup {e.a} /\ UNCHANGED v_tabs
      \/ e.ev = "end" /\ Chk(v_rows = Byte /\ v_tabs, <<"incomplete dump">>) /\ UNCHANGED <<v_rows, v_tabs>>
   /\ v_pos' = v_pos + 1
 Spec == Init /\ [][Step]_vars
